@@ -586,16 +586,31 @@ def _array_comp_helper(a, b):
     return a, b
 
 
+def _close_helper(func, a, b, rtol=1.0e-5, atol=1.0e-8, equal_nan=False):
+    # the tolerances follow allclose_units: atol is an absolute difference in
+    # its own units, or in the units of b (the reference value) when bare
+    b_units = getattr(b, "units", NULL_UNIT)
+    a, b = _array_comp_helper(a, b)
+    units = getattr(a, "units", NULL_UNIT)
+    if hasattr(atol, "units"):
+        atol = atol.in_units(units).value
+    elif b_units != NULL_UNIT and b_units != units:
+        atol = atol * (b_units.base_value / units.base_value)
+    if hasattr(rtol, "units"):
+        rtol = rtol.in_units("dimensionless").value
+    return func._implementation(
+        np.asarray(a), np.asarray(b), rtol=rtol, atol=atol, equal_nan=equal_nan
+    )
+
+
 @implements(np.isclose)
 def isclose(a, b, *args, **kwargs):
-    a, b = _array_comp_helper(a, b)
-    return np.isclose._implementation(np.asarray(a), np.asarray(b), *args, **kwargs)
+    return _close_helper(np.isclose, a, b, *args, **kwargs)
 
 
 @implements(np.allclose)
 def allclose(a, b, *args, **kwargs):
-    a, b = _array_comp_helper(a, b)
-    return np.allclose._implementation(np.asarray(a), np.asarray(b), *args, **kwargs)
+    return _close_helper(np.allclose, a, b, *args, **kwargs)
 
 
 @implements(np.array_equal)
